@@ -156,6 +156,9 @@ func (op Tsp) Op_instruction_verilog_footer(arch *Arch, flavor string) string {
 }
 
 func (op Tsp) Assembler(arch *Arch, words []string) (string, error) {
+	opbits := arch.Opcodes_bits()
+	rom_word := arch.Max_word()
+
 	reg_num := 1 << arch.R
 
 	locationBits := arch.O
@@ -185,6 +188,10 @@ func (op Tsp) Assembler(arch *Arch, words []string) (string, error) {
 		}
 	}
 
+	if result == "" {
+		return "", Prerror{"Unknown register name " + words[0]}
+	}
+
 	if partial, err := Process_number(words[1]); err == nil {
 		result += zeros_prefix(int(locationBits), partial)
 	} else {
@@ -195,6 +202,10 @@ func (op Tsp) Assembler(arch *Arch, words []string) (string, error) {
 		result += zeros_prefix(8, partial)
 	} else {
 		return "", Prerror{err.Error()}
+	}
+
+	for i := opbits + int(arch.R) + int(locationBits) + 8; i < rom_word; i++ {
+		result += "0"
 	}
 
 	return result, nil
